@@ -415,16 +415,19 @@ impl<'a, W: Write> Writer<'a, W> {
             return Ok(num_bytes);
         }
 
-        self.codec.compress(&mut self.buffer)?;
+        // Compress a copy: if the sink fails below, the pending block must stay uncompressed so
+        // that flushing again does not compress it a second time.
+        let mut stream = self.buffer.clone();
+        self.codec.compress(&mut stream)?;
 
         let num_values = self.num_values;
-        let stream_len = self.buffer.len();
+        let stream_len = stream.len();
 
         num_bytes += self.append_raw(&num_values.try_into()?, &Schema::Long)?
             + self.append_raw(&stream_len.try_into()?, &Schema::Long)?
             + self
                 .writer
-                .write_all(self.buffer.as_ref())
+                .write_all(stream.as_ref())
                 .map(|()| stream_len)
                 .map_err(Details::WriteBytes)?
             + self.append_marker()?;
